@@ -81,6 +81,17 @@ AeadOpens(k, n, ad, c) ==
   /\ c[4] = ad
 AeadPlain(c) == c[5]
 
+(* ---- what is at stake when a message is rejected (C19) ------------------ *)
+(* the plaintexts that a decryption of the (possibly altered or cut) fields  *)
+(* of a message would reveal: none of them may reach the caller's buffer     *)
+RECURSIVE PlainOf(_)
+PlainOf(f) ==
+  CASE f[1] = "aead" -> {f[5]}
+    [] f[1] = "alt"  -> PlainOf(f[2])
+    [] f[1] = "cut"  -> PlainOf(f[2])
+    [] OTHER         -> {}
+LeakSet(msg) == UNION { PlainOf(msg[i]) : i \in 1..Len(msg) }
+
 (* ---- reading bytes out of a message ---------------------------------- *)
 (* A message is a sequence of fields.  The reader parses by ITS OWN       *)
 (* expectation: it asks for `len` bytes at offset `off`.  If exactly one  *)
